@@ -253,7 +253,11 @@ func (vc *VC) typeFacts(term string, t types.Type, st *hstate) string {
 		if ii, ok := intInfoOf(t); ok {
 			return and(sx("<=", bigNum(ii.min()), term), sx("<=", term, bigNum(ii.max())))
 		}
-		_ = u
+		if u.Info()&types.IsString != 0 {
+			// lengths of string values that exist at run time fit an int (no such bound is stated for
+			// concatenation terms, whose operands may belong to different paths)
+			return sx("<=", sx("slen", term), "9223372036854775807")
+		}
 	case *types.Slice:
 		a := sx("s-arr", term)
 		f := sx("wf-slice", term)
